@@ -1,3 +1,4 @@
+import PGT.Proofs.FlattenWords
 import PGT.Model.Schema
 import PGT.Proofs.Strings
 /-
@@ -76,5 +77,38 @@ theorem C10_injected (m : Msg) (i : InjectedField) (h : i ∈ m.info.injected) :
   exact Or.inr ⟨i, h, rfl, rfl, rfl, rfl, rfl, rfl, rfl⟩
 
 example : (fieldComment " First line\r\n   second line  \n\n third\n".toList) = "First line second line  third".toList := by decide
+
+-- ------------------------------------------------------------------------------------------------------
+-- "flattened": the description has exactly the words of the comment, in order (`words` = `strings.Fields`, white space =
+-- `unicode.IsSpace`); proofs in `Proofs/FlattenWords.lean`
+
+/-- `ToSingleLine` keeps the words, for every string. -/
+theorem C10_description_words (s : Str) : words (toSingleLine s) = words s := by
+  intros; apply words_toSingleLine <;> assumption
+
+/-- the description of a field has exactly the words of the leading proto comment -/
+theorem C10_field_comment_words (s : Str) : words (fieldComment s) = words s := by
+  intros; apply words_fieldComment <;> assumption
+
+/-- the description of a message has exactly the words of the leading proto comment -/
+theorem C10_message_comment_words (s : Str) : words (messageComment s) = words s := by
+  intros; apply words_messageComment <;> assumption
+
+/-- **Exact form of the output**: the trimmed lines, without the blank ones at both ends, joined by single spaces. -/
+theorem C10_description_exact (s : Str) :
+    toSingleLine s = joinWith [' '] (stripBlank ((splitOnChar '\n' s).map trimSpace)) := by
+  intros; apply toSingleLine_eq <;> assumption
+
+/-- two single lines -/
+theorem C10_line_break_one_space (u v : Str) (hu : '\n' ∉ u) (hv : '\n' ∉ v)
+    (hu' : trimSpace u ≠ []) (hv' : trimSpace v ≠ []) :
+    toSingleLine (u ++ '\n' :: v) = trimSpace u ++ ' ' :: trimSpace v := by
+  intros; apply toSingleLine_two_lines <;> assumption
+
+/-- counterexample for the ASCII white-space set -/
+theorem C10_words_need_unicode_space :
+    asciiWords (toSingleLine ['a', '\x0b', '\n', 'b']) ≠ asciiWords ['a', '\x0b', '\n', 'b'] := by
+  intros; apply asciiWords_toSingleLine_counterexample <;> assumption
+
 
 end PGT.Props.C10
